@@ -1782,6 +1782,7 @@ fn escape_scalar_string(value: &[u8], start: usize, end: usize, json: &mut Strin
     let mut last_start = start;
     for i in start..end {
         // add backslash for escaped characters.
+        let control;
         let c = match value[i] {
             0x5C => "\\\\",
             0x22 => "\\\"",
@@ -1790,6 +1791,11 @@ fn escape_scalar_string(value: &[u8], start: usize, end: usize, json: &mut Strin
             0x0A => "\\n",
             0x0D => "\\r",
             0x09 => "\\t",
+            // JSON does not allow the other control characters unescaped
+            b @ 0x00..=0x1F => {
+                control = format!("\\u{:04x}", b);
+                control.as_str()
+            }
             _ => {
                 continue;
             }
